@@ -89,7 +89,7 @@ func Run(r *common.Run) error {
 		e.Do(cs, "corpus")
 	}
 	// every fault point of every standard handshake
-	for _, base := range handshakes() {
+	for bi, base := range handshakes() {
 		clean := e.Do(base, "handshake")
 		if clean.Outcome != "done" {
 			r.Fail("harness", "handshake-not-clean", []string{"C04 " + base.Line(clean)}, "the fault-free handshake does not complete: "+clean.Obs(base.Cfg))
@@ -130,18 +130,35 @@ func Run(r *common.Run) error {
 				e.Do(cs, "fault-callback")
 			}
 		}
-		// every operation blocks in turn (the peer is silent, resp. does not read) and the
-		// context is cancelled while it is blocked
-		for k := 0; k < ops; k++ {
-			cs := base
-			cs.Fault = fmt.Sprintf("B%d", k)
-			e.Do(cs, "blocked-cancel")
-		}
-		// the context is cancelled after every event
-		for n := 0; n <= len(clean.Events); n++ {
-			cs := base
-			cs.Fault = fmt.Sprintf("C%d", n)
-			e.Do(cs, "cancel")
+		// Cancellation, with every kind of context whose Done() can fire: WithCancel, a far
+		// deadline with an explicit cancel, a timeout nested in a cancelled parent, and a near
+		// deadline that expires (the last one costs real time: first handshake only in the quick
+		// tier).
+		for _, kind := range c01.CtxKinds {
+			if kind == 'n' && r.Quick() && bi > 0 {
+				continue
+			}
+			// every operation blocks in turn (the peer is silent, resp. does not read) and the
+			// context is done while it is blocked
+			for k := 0; k < ops; k++ {
+				cs := base
+				cs.Ctx = kind
+				cs.Fault = fmt.Sprintf("B%d", k)
+				if c01.SkipForStalls() {
+					continue
+				}
+				e.Do(cs, "blocked-cancel/"+string(kind))
+			}
+			// the context is done after every event (0: already done at entry)
+			for n := 0; n <= len(clean.Events); n++ {
+				cs := base
+				cs.Ctx = kind
+				cs.Fault = fmt.Sprintf("C%d", n)
+				if c01.SkipForStalls() {
+					continue
+				}
+				e.Do(cs, "cancel/"+string(kind))
+			}
 		}
 	}
 	// blocked with nobody cancelling: the call legitimately stays blocked (first write, first
@@ -153,7 +170,7 @@ func Run(r *common.Run) error {
 			e.Do(cs, "blocked-forever")
 		}
 	}
-	r.Exhaustive = append(r.Exhaustive, "every read/write index (single and permanent failure), every end of input, every failing callback, every cancellation instant and every operation blocking with cancellation while blocked, of 10 instrumented standard handshakes (STARTTLS+auth+voluntary+bind; both roles; TCP/WebSocket; c2s/s2s; pre-secured)")
+	r.Exhaustive = append(r.Exhaustive, "every read/write index (single and permanent failure), every end of input, every failing callback, every cancellation instant and every operation blocking with cancellation while blocked (each with four kinds of context: WithCancel, far deadline + cancel, timeout in a cancelled parent, near deadline expiring), of 10 instrumented standard handshakes (STARTTLS+auth+voluntary+bind; both roles; TCP/WebSocket; c2s/s2s; pre-secured)")
 	runReal(r)
 	runComponent(e)
 	n := r.Pick(3000, 40000)
@@ -164,7 +181,16 @@ func Run(r *common.Run) error {
 		} else if r.Rnd.Chance(1, 8) {
 			cs.Fault = fmt.Sprintf("B%d", r.Rnd.Intn(8))
 		}
+		if cs.Fault != "-" && r.Rnd.Chance(1, 2) {
+			cs.Ctx = []byte{'d', 'p'}[r.Rnd.Intn(2)]
+		}
+		if (strings.HasPrefix(cs.Fault, "C") || strings.HasPrefix(cs.Fault, "B")) && c01.SkipForStalls() {
+			continue
+		}
 		e.Do(cs, "random")
+	}
+	if n := c01.StallSkipped(); n > 0 {
+		r.Notes = append(r.Notes, fmt.Sprintf("stall budget (%d) used up: %d further cancellation/blocking cases skipped", c01.StallBudget, n))
 	}
 	r.Notes = append(r.Notes, fmt.Sprintf("%d negotiation runs of the real NewSession/ReceiveSession", e.N))
 	return nil
